@@ -131,9 +131,11 @@ class DiffusionModel(GenericModel):
         data = {
             'finalTime': self.t,
             'finalX': self.x,
-            'recordX': self._recordedX,
-            'recordTime': self._recordedTime
         }
+        #Without recording there is no recorded data (and None cannot be stored in a npz file without pickling)
+        if self._recordedX is not None:
+            data['recordX'] = self._recordedX
+            data['recordTime'] = self._recordedTime
         return data
 
     def fromDict(self, data):
@@ -142,8 +144,8 @@ class DiffusionModel(GenericModel):
         '''
         self.t = data['finalTime']
         self.x = data['finalX']
-        self._recordedX = data['recordX']
-        self._recordedTime = data['recordTime']
+        self._recordedX = data.get('recordX', None)
+        self._recordedTime = data.get('recordTime', None)
     
     def setHashSensitivity(self, s):
         '''
